@@ -71,7 +71,13 @@ def evaluate(case, out):
         hk_r = hist(x[:k], reused)
         hx_r = hist(x, reused)
         # and the same sample held as floats instead of its natural (possibly integer) dtype
-        hx_f = as_list(nonneg.make_test(cfg).test(np.array(x, dtype=float))[1], len(x))
+        arr = np.array(x, dtype=float)
+        keep = arr.copy()
+        tf = nonneg.make_test(cfg)
+        hx_f = as_list(tf.test(arr)[1], len(x))
+        hx_f2 = as_list(tf.test(arr)[1], len(x))   # the same array object evaluated again
+        out.expect(bool(np.array_equal(arr, keep)), "test-alters-the-callers-sample", lambda: (arr.tolist()[:6], keep.tolist()[:6]))
+        out.expect(all(_same(a, b) for a, b in zip(hx_f, hx_f2)), "second-evaluation-of-the-same-array-differs", lambda: (hx_f[:5], hx_f2[:5]))
     except Exception as e:  # noqa
         out.lib_exception("test", e)
         return
